@@ -78,7 +78,8 @@ FromBuffers(F, n, C, path) ==
          ELSE LET nonempty == Select([k \in 1..n |-> k], LAMBDA k : s[k] # e[k])
                   need == MaxOr0([q \in 1..Len(nonempty) |-> e[nonempty[q]]])
                   x == FromBuffers(F.x, need, C, path \o <<1>>)
-              IN IF IsBad(x) THEN Bad ELSE ListA(s, e, x)
+              \* (starts/stops are cut to the n lists the content was sized for -- finding F71 was the code keeping them whole)
+              IN IF IsBad(x) THEN Bad ELSE ListA(SubSeq(s, 1, n), SubSeq(e, 1, n), x)
     [] F.c = "Indexed" ->
          LET i == Buf(C, path, "index") IN
          IF n > Len(i) THEN Bad
